@@ -42,7 +42,10 @@ fn drain<R: Read>(r: &mut R, bufs: &[usize], cap: usize) -> Result<Vec<u8>, Stri
 /// returned bytes whose CRC-32 equals crc32(), unless it is an encrypted AE-2 entry.
 /// `must_fail[i]`: entries for which a completed read is itself a violation (damaged stored data).
 pub fn invariant(bytes: &[u8], seed: &Seed, bsel: usize, must_fail: Option<usize>, t: &mut Tally) -> Result<(), String> {
-    let bufs = BUFS[bsel % BUFS.len()];
+    invariant_b(bytes, seed, BUFS[bsel % BUFS.len()], must_fail, t)
+}
+
+pub fn invariant_b(bytes: &[u8], seed: &Seed, bufs: &[usize], must_fail: Option<usize>, t: &mut Tally) -> Result<(), String> {
     if let Ok(mut za) = zip::ZipArchive::new(Cursor::new(bytes)) {
         for i in 0..za.len().min(64) {
             let pw = seed.passwords.get(i).cloned().flatten();
@@ -147,7 +150,7 @@ fn region_positions(s: &Seed) -> Vec<(u64, Option<usize>)> {
 }
 
 pub fn run(ctx: &mut Ctx) {
-    ctx.rule("flips: EVERY single-bit flip inside every entry's data region and central CRC field of the small seed archives (all methods, ZipCrypto, AE-1/AE-2, crate-written and reference-built), each read with a caller-buffer schedule from {1,2,3,7,64,4096, zero-length interleaved} through the seekable and the streaming reader; crc_values: every entry's declared CRC (central record / local header) replaced by 0, all ones, 1, the top bit, its complement, record signatures, a rotation; damage: random multi-byte damage, truncated payloads (sizes adjusted) and payloads swapped between entries. Oracle: a read that reaches end-of-file without error has CRC(bytes)==crc32() unless the entry is an encrypted AE-2 entry; a flipped stored entry must fail. Non-trivial = the mutant still opens and the damaged entry was opened and read to a terminal state.");
+    ctx.rule("flips: EVERY single-bit flip inside every entry's data region and central CRC field of the small seed archives (all methods, ZipCrypto, AE-1/AE-2, crate-written and reference-built), each read with a caller-buffer schedule from {1,2,3,7,64,4096, zero-length interleaved} through the seekable and the streaming reader; crc_values: every entry's declared CRC (central record / local header) replaced by 0, all ones, 1, the top bit, its complement, record signatures, a rotation; damage: random multi-byte damage, truncated payloads (sizes adjusted) and payloads swapped between entries; size_lies: entries whose data decodes to MORE bytes than they declare while the declared CRC is that of the declared prefix, read with call boundaries exactly at the declared size and through read_exact(size)+read_to_end. Oracle: a read that reaches end-of-file without error has CRC(bytes)==crc32() unless the entry is an encrypted AE-2 entry; a flipped stored entry must fail. Non-trivial = the mutant still opens and the damaged entry was opened and read to a terminal state.");
     ctx.assume("AE-2 exemption applies to entries that are actually AES-encrypted (flag bit 0 + AE-2 record); an unencrypted entry that merely carries an AE-2 extra record is not exempt");
     if let Some(c) = ctx.replay_case("fuzz_raw") {
         let bytes = crate::util::unhex(c["bytes"].as_str().unwrap_or("")).unwrap_or_default();
@@ -339,6 +342,101 @@ pub fn run(ctx: &mut Ctx) {
             match r {
                 Ok(Ok(())) => Verdict::Pass,
                 Ok(Err(m)) => Verdict::Fail(m),
+                Err(p) if p.contains("/repo/src") => Verdict::Pass,
+                Err(p) => Verdict::Fail(format!("PANIC in harness: {p}")),
+            }
+        },
+    );
+    // the declared size LIES: the stream decodes to more bytes than the entry declares and the declared CRC
+    // is that of the declared prefix; read with a call boundary exactly at the declared size (and through
+    // read_exact(size) + read_to_end) - completing is only acceptable with bytes matching the declared CRC
+    #[derive(Clone, Debug, Serialize, Deserialize, Hash)]
+    struct Lie {
+        method: u16,
+        content: Content,
+        /// declared size as a fraction (of 65536) of the real length
+        frac: u16,
+        how: u8,
+    }
+    let nl = ctx.q(6000, 60000);
+    ctx.explore::<Lie>(
+        "size_lies",
+        nl,
+        &|| (prop_oneof![Just(0u16), Just(8u16), Just(12u16), Just(93u16)], crate::refzip::content::content_nonempty(3000), prop_oneof![1 => Just(0u16), 4 => any::<u16>()], 0u8..4).prop_map(|(method, content, frac, how)| Lie { method, content, frac, how }).boxed(),
+        &|l: &Lie, info: &mut Info| {
+            let full = l.content.expand();
+            if full.len() < 2 {
+                return Verdict::Pass;
+            }
+            let n = ((l.frac as usize * (full.len() - 1)) >> 16).min(full.len() - 1);
+            let comp = match codec::compress(l.method, None, &full) {
+                Ok(c) => c,
+                Err(_) => return Verdict::Pass,
+            };
+            let mut e = EntrySpec::simple(b"liar", l.method, Content::Bytes(full[..n].to_vec()));
+            e.raw_payload = Some(Content::Bytes(comp));
+            let spec = ArchiveSpec::plain(vec![EntrySpec::simple(b"before", 0, Content::Bytes(b"x".to_vec())), e, EntrySpec::simple(b"after", 8, Content::Text { seed: 1, len: 50 })]);
+            let built = match build::build(&spec) {
+                Ok(b) => b,
+                Err(_) => return Verdict::Pass,
+            };
+            let mut s = seed_of(&spec, built);
+            s.stored_plain = vec![false; 3]; // nothing is demanded beyond the invariant
+            let bufs: Vec<usize> = match l.how {
+                0 => vec![n.max(1), 4096],
+                1 => vec![n.max(1)],
+                2 => vec![1.max(n / 2), n - n / 2, 7],
+                _ => vec![4096],
+            };
+            info.label(["boundary-at-declared-size", "chunks-of-declared-size", "two-reads-to-declared-size", "big-reads"][l.how as usize]);
+            info.label(if l.method == 0 { "stored" } else { "compressed" });
+            let mut t = Tally::default();
+            let mut r = catch(|| invariant_b(&s.bytes, &s, &bufs, None, &mut t));
+            if let Ok(Ok(())) = r {
+                // read_exact(declared size) followed by read_to_end, through both readers
+                r = catch(|| -> Result<(), String> {
+                    let mut za = zip::ZipArchive::new(Cursor::new(&s.bytes[..])).map_err(|e| format!("harness: {e}"))?;
+                    if let Ok(mut f) = za.by_index(1) {
+                        let (declared, size) = (f.crc32(), f.size() as usize);
+                        let mut head = vec![0u8; size];
+                        if f.read_exact(&mut head).is_ok() {
+                            let mut rest = Vec::new();
+                            if f.read_to_end(&mut rest).is_ok() {
+                                head.extend_from_slice(&rest);
+                                let c = crypto::crc32(&head);
+                                if c != declared {
+                                    return Err(format!("entry 1: read_exact(size()) + read_to_end completed without error but CRC-32 of the {} returned bytes is {c:#010x}, declared {declared:#010x} (seekable reader; the entry declares {size} bytes, its data decodes to {})", head.len(), full.len()));
+                                }
+                            }
+                        }
+                    }
+                    let mut cur = Cursor::new(&s.bytes[..]);
+                    for i in 0..3 {
+                        match zip::read::read_zipfile_from_stream(&mut cur) {
+                            Ok(Some(mut f)) => {
+                                let (declared, size) = (f.crc32(), f.size() as usize);
+                                let mut head = vec![0u8; size];
+                                if f.read_exact(&mut head).is_ok() {
+                                    let mut rest = Vec::new();
+                                    if f.read_to_end(&mut rest).is_ok() {
+                                        head.extend_from_slice(&rest);
+                                        let c = crypto::crc32(&head);
+                                        if c != declared {
+                                            return Err(format!("entry {i}: read_exact(size()) + read_to_end completed without error but CRC-32 of the {} returned bytes is {c:#010x}, declared {declared:#010x} (streaming reader)", head.len()));
+                                        }
+                                    }
+                                }
+                            }
+                            _ => break,
+                        }
+                    }
+                    Ok(())
+                });
+            }
+            info.nontrivial = t.opened > 0;
+            match r {
+                Ok(Ok(())) => Verdict::Pass,
+                Ok(Err(m)) => Verdict::Fail(format!("declared size {n} of {} real bytes (method {}): {m}", full.len(), l.method)),
                 Err(p) if p.contains("/repo/src") => Verdict::Pass,
                 Err(p) => Verdict::Fail(format!("PANIC in harness: {p}")),
             }
